@@ -234,3 +234,25 @@ def check_accumulator_init(r, fn, rel, loop_node, name, label, zero=("0", "0.0",
 
 def loop_node(fn, ordinal):
     return [x for x in A.walk(fn) if x.get("kind") in ("ForStmt", "WhileStmt", "DoStmt")][ordinal]
+
+
+def ext_units(pid):
+    """units contributed by props/<pid lower>_ext.py (if present): a module with UNITS = [(unit id, f)], f(twin=False) -> unit result;
+    every one is run with its must-fail twin like the units wired by hand"""
+    import importlib
+    try:
+        M = importlib.import_module("props.%s_ext" % pid.lower())
+    except ModuleNotFoundError as e:
+        if e.name != "props.%s_ext" % pid.lower():
+            raise
+        return []
+    from vf.core import FAILED
+    out = []
+    for uid, f in M.UNITS:
+        def g(f=f):
+            r = f()
+            if not any(o.status == FAILED for o in r.obligations):
+                U.must_fail_twin(r, "vacuity.must_fail_twin", lambda: f(twin=True))
+            return r
+        out.append((uid, g))
+    return out
